@@ -311,7 +311,7 @@ def tasks(tier):
     if tier == "quick":
         return [("relations-%d" % k, task_relations, dict(n=300)) for k in range(5)] + \
                [("conversions", task_conversions, dict(n=1500))]
-    return [("relations-%d" % k, task_relations, dict(n=10000)) for k in range(15)] + \
+    return [("relations-%d" % k, task_relations, dict(n=8000)) for k in range(15)] + \
            [("conversions", task_conversions, dict(n=100000))]
 
 
